@@ -87,6 +87,9 @@ def bound(tier, seed):
     return dict(subjects=len(subjects(tier)), operations=OPS, histories=len(histories(tier)), depth=2 if tier == "quick" else 3, converters=17, mapset_sources="two charts: the edited chart and an 'empties' chart")
 
 
+LARGE_HIST = [(), ("rev",), ("gaps",), ("stack_off",), ("rate",), ("full_ln",)]
+
+
 def roots(tier, seed):
     hs = histories(tier)
     rs = []
@@ -94,10 +97,20 @@ def roots(tier, seed):
     for i in range(len(subjects(tier))):
         for k in range(n):
             rs.append(dict(i=i, k=k, n=n))
+    # size: every converter on charts of 300 notes (thorough: 1100), fresh and after one operation
+    for g in charts.GAMES:
+        rs.append(dict(large=g, v="large"))
+        if tier == "thorough":
+            rs.append(dict(large=g, v="large1100"))
     return rs
 
 
 def explore(root, tier, ctx):
+    if "large" in root:
+        seen = set()
+        for h in LARGE_HIST:
+            check_state(root["large"], root["v"], h, ctx, seen)
+        return
     g, v = subjects(tier)[root["i"]]
     hs = histories(tier)
     seen = set()
